@@ -96,6 +96,7 @@ def run(repo, report, tier):
                 "A{3} is not expanded to AAA, or a malformed brace expression is silently accepted")
     report.guard("C18.R1", "argparse", r1_options, repo, report)
     report.guard("C18.R2", "class table", r2_classes, repo, report)
+    report.guard("C18.R2", "anchored classes", r2_anchored, repo, report)
     report.guard("C18.R3", "parameters", r3_parameters, repo, report)
     report.guard("C18.R4", "precedence", r4_precedence, repo, report)
     report.guard("C18.R5", "file notation", r5_file, repo, report)
@@ -371,7 +372,25 @@ def r3_parameters(repo, report):
     for cn in ("FrontAdapter", "BackAdapter"):
         c3, i3 = repo.need_method(cn, "__init__")
         ok = ok and "kwargs.pop('force_anywhere', False)" in src(i3)
-    report.ob("C18.R3", "'anywhere' -> force_anywhere", ok, facts={"if": src(ifs[0])[:200] if ifs else None}, expected="popped; sets force_anywhere for regular 5'/3'/rightmost adapters, whose constructors pop it", loc=repo.loc(f))
+    # 'anywhere' is consumed on EVERY path that builds the adapter (it is not a constructor keyword)
+    fps = params(f)
+
+    def pop_hook(ex, node, env):
+        fn_ = node.func
+        if isinstance(fn_, ast.Attribute) and fn_.attr == "pop" and node.args and isinstance(node.args[0], ast.Constant) and node.args[0].value == "anywhere":
+            ex.effect("call", "pop:anywhere", vkey(ex.ev(fn_.value, env)), node)
+            return Obj("ANYWHERE_GIVEN")
+        cn = chain(fn_)
+        if cn == "AdapterSpecification.parse":
+            return Obj("ASPEC", nonnull=True)
+        return None
+
+    prow = explore(repo, strip_docstring(f.body), {p_: Obj(p_.upper()) for p_ in fps}, call_hook=pop_hook, inline=False, max_rows=4000)
+    unconsumed = [r.describe()["valuation"] for r in prow if r.exit[0] == "return" and not any(e[0] == "call" and e[1] == "pop:anywhere" and e[2] == "ASPEC.parameters" for e in r.effects)]
+    forced_without = [r.describe()["valuation"] for r in prow if any(e[0] == "store" and e[1] == "ASPEC.parameters['force_anywhere']" for e in r.effects) and r.valuation.get("truthy:ANYWHERE_GIVEN") is not True]
+    ok = ok and not unconsumed and not forced_without and any(r.exit[0] == "return" for r in prow)
+    report.ob("C18.R3", "'anywhere' -> force_anywhere", ok, facts={"if": src(ifs[0])[:200] if ifs else None}, expected="popped on every path (whatever the class); sets force_anywhere only if given, for regular 5'/3'/rightmost adapters, whose constructors pop it", loc=repo.loc(f),
+              why=("'anywhere' is not removed from the parameters on a path that builds the adapter: it would reach the constructor as an unknown keyword" if unconsumed else ""))
 
 
 def _copy_hook(ex, node, env):
@@ -698,3 +717,17 @@ def r8_braces(repo, report):
     asg = [n_ for n_ in ast.walk(pa) if isinstance(n_, ast.Assign) and n_.value in cs]
     ok = len(cs) == 1 and len(asg) == 1 and isinstance(asg[0].targets[0], ast.Name) and src(cs[0].args[0]) == asg[0].targets[0].id
     report.ob("C18.R8", "AdapterSpecification.parse expands braces in the sequence", ok, facts={"call": src(asg[0]) if asg else None}, expected="spec = expand_braces(spec)", loc=repo.loc(pa))
+
+
+def r2_anchored(repo, report):
+    """'^' and '$' anchor: the classes they select must require the whole adapter (same construct as C01.R1)."""
+    from ..core import Report
+    from . import c01
+
+    tmp = Report("C18", report.tier)
+    c01.r1_anchored_full_length(repo, tmp)
+    n = 0
+    for o in tmp.obligations:
+        n += 1
+        report.ob("C18.R2", o.construct, None if o.state == "UNRECOGNISED" else o.state == "DISCHARGED", facts=o.facts, expected=o.expected, loc=o.loc, why=o.why, cases=o.cases)
+    report.floor("C18.R2", "anchored adapter classes", n, 2)
